@@ -162,6 +162,12 @@ def _mk_cmp(op, l, r):
         op, l, r = flip[op], r, l
     if op in ("==", "!=") and intlit(l) and not intlit(r):
         l, r = r, l
+    if op in ("==", "!=") and l[0] == "call" and l[1] == "Some" and len(l[2]) == 1 and not (r[0] == "call" and r[1] == "Some"):
+        l, r = r, l
+    if op in ("==", "!=") and r[0] == "call" and r[1] == "Some" and len(r[2]) == 1 and not (l[0] == "call" and l[1] == "Some") and l != ("def", "v1::None"):
+        # o == Some(w)  is  o is Some && payload == w
+        c = ("op", "&&", [_let("v1::Some($)", l), ("op", "==", [_proj_some(l), r[2][0]])])
+        return c if op == "==" else _not(c)
     if op == ">" and intlit(r):
         op, r = ">=", ("lit", str(int(r[1]) + 1))
     elif op == "<=" and intlit(r):
@@ -174,6 +180,38 @@ def _mk_cmp(op, l, r):
         if (op, r[1]) in (("!=", "0"), (">=", "1")):
             return ("op", "Not", [e])
     return ("op", op, [l, r])
+
+
+def _shadow_safe(body, d, sub):
+    """rewrite(body, sub) that leaves closures of the same depth index `d` alone: a term substituted into a closure body keeps the depth
+    numbers of where it was written, so a closure inside it can carry the SAME index and rebinds the parameter name"""
+    table = []
+
+    def protect(n):
+        if n[0] == "closure" and n[1] == d:
+            table.append(n)
+            return ("sym", "\x00clo%d" % (len(table) - 1))
+        return None
+    t = rewrite(body, protect)
+    t = rewrite(t, sub)
+
+    def restore(n):
+        if n[0] == "sym" and isinstance(n[1], str) and n[1].startswith("\x00clo"):
+            return table[int(n[1][4:])]
+        return None
+    for _ in range(len(table) + 1):
+        t2 = rewrite(t, restore)
+        if t2 == t:
+            break
+        t = t2
+    return t
+
+
+def _compose(g, f):
+    """|x| g(f(x)) for two one-parameter closures written at the same depth"""
+    d = g[1]
+    fb = f[3]
+    return ("closure", d, 1, _shadow_safe(g[3], d, lambda n: fb if n == ("cparam", d, 0) else None))
 
 
 def _apply(clo, arg):
@@ -189,7 +227,7 @@ def _apply(clo, arg):
         if n[0] == "closure" and n[1] > d:
             return ("closure", n[1] - 1, n[2], n[3])
         return None
-    return rewrite(clo[3], sub)
+    return _shadow_safe(clo[3], d, sub)
 
 
 _LAZY_ARGS = {"then": (1,), "ok_or": (1,), "search": (1, 2, 3), "vec+": tuple(range(64))}
@@ -270,6 +308,14 @@ def _then_merge(t):
             return _then_norm(("op", "&&", [_not(t[1]), b[2][0]]), b[2][1])
         if b == _NONE and is_then(a):
             return _then_norm(("op", "&&", [t[1], a[2][0]]), a[2][1])
+        if b == _NONE and not _NO_TAIL_TRY:
+            # if let Some(_) = X && c(payload) { v(payload) } else { None }   ==   if c(X?) { v(X?) } else { None }
+            n = _then_norm(t[1], a)
+            if n[0] == "call" and n[1] == "then":
+                if n[2][0] != t[1] or n[2][1] != a:
+                    return _mk_if(n[2][0], n[2][1], _NONE)
+            elif n[0] == "call" and n[1] == "Some":
+                return n[2][0]
         if a is not t[2] or b is not t[3]:
             return _mk_if(t[1], a, b)
         return t
@@ -1260,6 +1306,25 @@ class Norm:
             self._busy.discard(lid)
         self._memo[mkey] = t
         return t
+
+    def _adaptor(self, name, recv, clo):
+        """map / filter / filter_map of `recv` with a one-parameter closure, in the canonical form of adaptor chains: maps compose, filters come
+        before maps, a filter before a filter_map is part of it, `filter_map(|x| c.then(|| v))` is `filter(c).map(v)`"""
+        d = clo[1]
+        if recv[0] == "call" and recv[1] in ("Iterator::map", "Iterator::filter") and len(recv[2]) == 2 and recv[2][1][0] == "closure" \
+                and recv[2][1][2] == 1 and recv[2][1][1] == d:
+            base, inner = recv[2]
+            if recv[1] == "Iterator::map" and name in ("Iterator::map", "Iterator::filter_map"):
+                return self._adaptor(name, base, _compose(clo, inner))                              # it.map(f).map(g) == it.map(g . f)
+            if recv[1] == "Iterator::map" and name == "Iterator::filter":
+                return self._adaptor("Iterator::map", self._adaptor("Iterator::filter", base, _compose(clo, inner)), inner)     # it.map(f).filter(p) == it.filter(p . f).map(f)
+            if recv[1] == "Iterator::filter" and name == "Iterator::filter_map":
+                return self._adaptor(name, base, ("closure", d, 1, _mk_if(inner[3], clo[3], ("def", "v1::None"))))      # it.filter(p).filter_map(g)
+            if recv[1] == "Iterator::filter" and name == "Iterator::filter":
+                return self._adaptor(name, base, ("closure", d, 1, ("op", "&&", [inner[3], clo[3]])))
+        if name == "Iterator::filter_map" and clo[3][0] == "call" and clo[3][1] == "then" and len(clo[3][2]) == 2:
+            return ("call", "Iterator::map", [("call", "Iterator::filter", [recv, ("closure", d, 1, clo[3][2][0])]), ("closure", d, 1, clo[3][2][1])])
+        return ("call", name, [recv, clo])
 
     def _collected(self, it, x, d):
         """`for e in it { v.push(x) }` as a value: it.map(|e| x).collect()  (with `?` hoisted out of the closure)"""
@@ -2336,6 +2401,10 @@ class Norm:
                 okv = ("proj", recv, "v1::Ok", "0")
                 X = _apply(args[0], okv)
                 return self._canon_match(recv, [("v1::Ok($)", None, ("call", "Ok", [X])), ("v1::Err($)", None, ("call", "Err", [("proj", recv, "v1::Err", "0")]))])
+            if name in ("Iterator::map", "Iterator::filter", "Iterator::filter_map") and len(args) == 1 and args[0][0] == "closure" and args[0][2] == 1 \
+                    and recv[0] == "call" and recv[1] in ("Iterator::map", "Iterator::filter") and len(recv[2]) == 2 and recv[2][1][0] == "closure" \
+                    and recv[2][1][2] == 1 and recv[2][1][1] == args[0][1]:
+                return self._adaptor(name, recv, args[0])
             if name == "Iterator::filter_map" and len(args) == 1 and args[0][0] == "closure" and args[0][2] == 1 and args[0][3][0] == "call" and args[0][3][1] == "then" \
                     and len(args[0][3][2]) == 2:
                 # it.filter_map(|x| c.then(|| v))  ==  it.filter(|x| c).map(|x| v)
